@@ -365,6 +365,16 @@ def probe_layer() -> J:
                          {"p": "LENGTH-KEY", "name": "lk", "byte": 1, "bit": 3, "dop": "u5",
                           "id": "LK.p_lenkey_bits.lk"},
                          p_value("data", "pl_bits", byte=2)], "length-key-at-bit-position")
+    # length keys inside a structure: as the item of a field (every item has its own length)
+    # and followed by further parameters (the key is filled in without moving the cursor)
+    dobjs.append(dop("pl_nested", dct_paramlen("A_BYTEFIELD", "LK.st_lk.lk")))
+    dobjs.append(_struct("st_lk", [{"p": "LENGTH-KEY", "name": "lk", "byte": None, "bit": None,
+                                    "dop": "u8", "id": "LK.st_lk.lk"},
+                                   p_value("data", "pl_nested"), p_value("t", "u8")]))
+    dobjs.append({"t": "EOPFIELD", "name": "eop_lk", "struct": "st_lk", "min": None, "max": None})
+    rq("p_lenkey_items", [sid(), p_value("recs", "eop_lk")], "length-key-in-field-items")
+    rq("p_lenkey_nested", [sid(), p_value("one", "st_lk"), p_value("after", "u8")],
+       "length-key-in-structure")
     # 9 DTC
     rq("p_dtc_linked", [sid(), p_value("code", "dtc_linked"), p_value("st", "u8")], "dtc-linked")
     # environment data inside repeated records: every record has its own DTC
